@@ -43,6 +43,7 @@ def run_one(name, checks=None, tier="quick", seed="1"):
         res["demo_without"] = demo(tree, os.path.join(d, "demo.py"))
         rc, txt = sh(["git", "-C", tree, "apply", "--3way", os.path.join(d, "patch.diff")])
         if rc != 0:
+            sh(["git", "-C", tree, "reset", "--hard", "-q"])  # a failed --3way leaves the file unmerged, with conflict markers
             rc, txt = sh(["git", "-C", tree, "apply", os.path.join(d, "patch.diff")])
         if rc != 0:
             # later fix: commits may have moved the context: same edit, fuzzy context
